@@ -2,6 +2,7 @@ package checks
 
 import (
 	"fmt"
+	"github.com/failsafe-go/failsafe-go"
 	"hash/fnv"
 	"strings"
 
@@ -73,12 +74,16 @@ func init() {
 			}
 			c16ConcurrentBreakerEvents(r, 28000000+i)
 		})
+		// with the library's yield points perturbing the schedule (between the retry executor's "already gave up?" check
+		// and its handling of a failure, in the hedge loop)
+		installYields(r.Seed)
 		vk.Parallel(scale(r, 600, 30000), 16, func(i int) {
 			if r.Skip(29000000 + i) {
 				return
 			}
 			c16ExceededOnce(r, 29000000+i)
 		})
+		failsafe.VerifSetYield(nil)
 		// concurrent executions sharing listeners: exactly one OnDone and one of OnSuccess/OnFailure per execution
 		rr := vk.Rng(r.Seed, "C16c", 0)
 		comps := c14Compositions(rr, true)
